@@ -7,6 +7,7 @@ import (
 	"io"
 	"net/http"
 	"net/url"
+	"os"
 	"strings"
 	"testing"
 	"time"
@@ -38,7 +39,7 @@ type H struct {
 	Steps []Step `json:"steps"`
 }
 
-const rule = "rapid stateful sequences on a single-node RaftNode over RocksDB (executor child): add / bulk, CreateBackup, DeleteBackup(k-th alive), ListBackups — each either on the node or (drawn) through the management API in front of it (POST /backup, GET /backups, DELETE /backup?backupID=<spelling>; the spelling is the id, the id with leading zeros, or one that names NO existing backup: id+2^32, id+2^33, -id, +id, 0x<id>, '<id>abc', '<id> ', empty, a never-issued id, or a wrong parameter name) — restore(k-th alive backup by id, or 'the latest backup' as `qed restore` without an id does) into a fresh directory followed by opening a fresh node (fresh raft directory, as the documented procedure does) on it in a second child. Model: backup id -> version and event count at backup time. Oracle: ListBackups = model (ids and metadata = version); delete removes exactly the one named and a request naming no existing backup removes nothing; the restored node reports version v, proves membership of every event <= v and consistency of sampled pairs <= v against the snapshots ORIGINALLY issued (= reference model), answers Exists=false for every later event, and its first accepted insertion is acknowledged with version v+1 and the reference digests. Non-trivial: a restore of a backup that has >=1 insertion after it while >=2 backups are alive. distinct = FNV-64 of the history."
+const rule = "rapid stateful sequences on a single-node RaftNode over RocksDB (executor child): add / bulk, CreateBackup, DeleteBackup(k-th alive), ListBackups — each either on the node or (drawn) through the management API in front of it (POST /backup, GET /backups, DELETE /backup?backupID=<spelling>; the spelling is the id, the id with leading zeros, or one that names NO existing backup: id+2^32, id+2^33, -id, +id, 0x<id>, '<id>abc', '<id> ', empty, a never-issued id, or a wrong parameter name) — restore(k-th alive backup by id, or 'the latest backup') with the real command line (`qed restore --backup-dir --restore-path [--backup-id]`, run in a second child while the node keeps running) into a fresh directory followed by opening a fresh node (fresh raft directory, as the documented procedure does) on it in a second child. Model: backup id -> version and event count at backup time. Oracle: ListBackups = model (ids and metadata = version); delete removes exactly the one named and a request naming no existing backup removes nothing; the restored node reports version v, proves membership of every event <= v and consistency of sampled pairs <= v against the snapshots ORIGINALLY issued (= reference model), answers Exists=false for every later event, and its first accepted insertion is acknowledged with version v+1 and the reference digests. Non-trivial: a restore of a backup that has >=1 insertion after it while >=2 backups are alive. distinct = FNV-64 of the history."
 
 func TestBackupRestore(t *testing.T) {
 	rec := pbt.NewRec("C16", "TestBackupRestore", rule, "backups are taken of non-empty logs (an empty log has no version)")
@@ -93,6 +94,21 @@ func TestBackupRestore(t *testing.T) {
 			default:
 				h.Steps = append(h.Steps, Step{Op: op})
 			}
+		}
+		// most sequences end with the interesting shape: two backups alive, an insertion
+		// after the older one, and a restore
+		if rapid.IntRange(0, 3).Draw(rt, "closing") != 0 {
+			for alive < 2 {
+				if events == 0 || rapid.Bool().Draw(rt, "closing-add") {
+					h.Steps = append(h.Steps, Step{Op: "add", Events: []string{fmt.Sprintf("ev-%d", seq)}})
+					seq++
+					events++
+				}
+				h.Steps = append(h.Steps, Step{Op: "backup", HTTP: rapid.Bool().Draw(rt, "closing-http")})
+				alive++
+			}
+			h.Steps = append(h.Steps, Step{Op: "add", Events: []string{fmt.Sprintf("ev-%d", seq)}})
+			h.Steps = append(h.Steps, Step{Op: rapid.SampledFrom([]string{"restore", "restore", "restore-latest"}).Draw(rt, "closing-restore"), K: rapid.IntRange(0, 7).Draw(rt, "closing-k")})
 		}
 		return h
 	}, exec)
@@ -347,22 +363,26 @@ func prefixModel(m *refmodel.Log, k int) *refmodel.Log {
 
 func restoreAndCheck(n *rig.Node, m *refmodel.Log, b backup, dir string, seq int, rec *pbt.Rec) error {
 	rdir := fmt.Sprintf("%s/restored-%d", dir, seq)
-	op := "node-restore"
-	if b.latest {
-		op = "node-restore-latest"
-	}
-	r, err := n.Simple(op, uint64(b.id), rdir+"/db")
-	if err != nil {
-		return unsettled("restore: %v", err)
-	}
-	if r.Err != "" {
-		return fmt.Errorf("RestoreFromBackup failed: %s", r.Err)
-	}
+	// the documented procedure: `qed restore --backup-dir <db>/backups --restore-path <new db>
+	// [--backup-id N]` (no id = the latest backup), run in a process of its own while the
+	// node that took the backups keeps running, then a node is started on the restored directory
 	y, err := rig.StartExec("nodeexec")
 	if err != nil {
 		return unsettled("executor: %v", err)
 	}
 	defer y.Kill()
+	args := []string{"restore", "--backup-dir", dir + "/db/backups", "--restore-path", rdir + "/db"}
+	if !b.latest {
+		args = append(args, "--backup-id", fmt.Sprintf("%d", b.id))
+	}
+	os.MkdirAll(rdir+"/db", 0o755)
+	r, err := y.Call(&xp.Req{Op: "cli", Args: args}, 120*time.Second)
+	if err != nil {
+		return fmt.Errorf("`qed %s` killed its process: %v", strings.Join(args, " "), err)
+	}
+	if r.Err != "" {
+		return fmt.Errorf("`qed %s` failed: %s", strings.Join(args, " "), r.Err)
+	}
 	rn, err := rig.OpenNode(y, "r", xp.NodeOpts{DBDir: rdir + "/db", RaftDir: rdir + "/raft", Bootstrap: true, TimeoutMs: 150, SnapshotThreshold: 1 << 30})
 	if err != nil {
 		return fmt.Errorf("a fresh node cannot be opened on the restored directory: %v", err)
